@@ -57,7 +57,7 @@ def oracle(ctx, cases):
 
 def run(ctx):
     runner.prove(ctx, MODULE, THEOREMS, FILES)
-    cases = substcorr.batch(ctx, ctx.n(90, 700), customs=False)
+    cases = substcorr.batch(ctx, ctx.n(90, 700), customs=False) + substcorr.open_dict_any_cases(ctx, ctx.n(150, 1500))
     # tight scalar corpus: bounds coinciding with the substituted value
     for s, w in valcases.scalar_corpus():
         cases.append(substcorr.SubCase(s, w, w, "corpus"))
